@@ -299,24 +299,54 @@ def check_tiled(prog, rep):
     # tiles
     loops = [n for n in walk_no_nested(f.node) if isinstance(n, ast.For)]
     tl = [l for l in loops if dump(l.iter) == "range(%s)" % q]
-    if len(tl) != 1 or len(tl[0].body) != 1 or not isinstance(tl[0].body[0], ast.Assign):
-        rep.violate("R2-tiles", construct, "whole tiles are not written for i in range(%s)" % q, where(f), "for i in range(%s): out[i*n:(i+1)*n] = a" % q, "other")
+    # vectorised form: out[:q*n] = numpy.tile(a, q)
+    tiles = [n for n in walk_no_nested(f.node) if isinstance(n, ast.Assign) and isinstance(n.value, ast.Call) and prog.dotted(f.module, n.value.func) == "numpy.tile"
+             and isinstance(n.targets[0], ast.Subscript) and isinstance(n.targets[0].slice, ast.Slice)]
+    if len(tl) != 1 and len(tiles) == 1:
+        st = tiles[0]
+        t = st.targets[0]
+        out = dump(t.value)
+        try:
+            for s_ in walk_no_nested(f.node):
+                if isinstance(s_, ast.Assign) and isinstance(s_.targets[0], ast.Name) and s_ is not dm and not isinstance(s_.value, ast.Call):
+                    vn.stmt(s_)
+            hi = vn.expr(t.slice.upper) if t.slice.upper is not None else None
+            lo0 = t.slice.lower is None or (isinstance(t.slice.lower, ast.Constant) and t.slice.lower.value == 0)
+        except VNUnknown:
+            hi, lo0 = None, False
+        targs = [dump(x) for x in st.value.args]
+        if not lo0 or hi is None or hi != parse_expr("%s * %s" % (q, no)):
+            rep.violate("R2-tiles", construct, "the tiled block is written to [%s], not to [0:q*n]" % dump(t.slice), where(f, st), "%s[:%s*%s]" % (out, q, no), dump(t))
+            good = False
+        if targs != [a, q]:
+            rep.violate("R2-tiles", construct, "the tiled block is numpy.tile(%s), not q whole copies of the option set" % ", ".join(targs), where(f, st), "numpy.tile(%s, %s)" % (a, q),
+                        dump(st.value))
+            good = False
+    elif len(tl) != 1 or len(tl[0].body) != 1 or not isinstance(tl[0].body[0], ast.Assign):
+        # a tile loop with another trip count is a classified difference; anything else is another formulation
+        cand = [l for l in loops if len(l.body) == 1 and isinstance(l.body[0], ast.Assign) and dump(l.body[0].value) == a and isinstance(l.body[0].targets[0], ast.Subscript)]
+        if cand:
+            rep.violate("R2-tiles", construct, "whole tiles are written for %s, not for i in range(%s)" % (dump(cand[0].iter), q), where(f, cand[0]),
+                        "for i in range(%s): out[i*n:(i+1)*n] = a" % q, dump(cand[0].iter))
+        else:
+            rep.unrec("R2-tiles", construct, "the whole tiles are not written by a loop over range(%s) nor by numpy.tile" % q)
         return
-    i = dump(tl[0].target)
-    st = tl[0].body[0]
-    t = st.targets[0]
-    if not (isinstance(t, ast.Subscript) and isinstance(t.slice, ast.Slice)):
-        rep.unrec("R2-tiles", construct, "tile store not a slice store")
-        return
-    out = dump(t.value)
-    lo, hi = vn.expr(t.slice.lower), vn.expr(t.slice.upper)
-    if lo != parse_expr("%s * %s" % (i, no)) or hi != parse_expr("(%s + 1) * %s" % (i, no)):
-        rep.violate("R2-tiles", construct, "tile %s is written to [%s] instead of [i*n:(i+1)*n] (tiles overlap or leave gaps: options are not used equally often)"
-                    % (i, dump(t.slice)), where(f, st), "%s[%s*%s:(%s+1)*%s]" % (out, i, no, i, no), dump(t))
-        good = False
-    if dump(st.value) != a:
-        rep.violate("R2-tiles", construct, "a tile is filled with %s, not with the whole option set" % dump(st.value), where(f, st), a, dump(st.value))
-        good = False
+    else:
+        i = dump(tl[0].target)
+        st = tl[0].body[0]
+        t = st.targets[0]
+        if not (isinstance(t, ast.Subscript) and isinstance(t.slice, ast.Slice)):
+            rep.unrec("R2-tiles", construct, "tile store not a slice store")
+            return
+        out = dump(t.value)
+        lo, hi = vn.expr(t.slice.lower), vn.expr(t.slice.upper)
+        if lo != parse_expr("%s * %s" % (i, no)) or hi != parse_expr("(%s + 1) * %s" % (i, no)):
+            rep.violate("R2-tiles", construct, "tile %s is written to [%s] instead of [i*n:(i+1)*n] (tiles overlap or leave gaps: options are not used equally often)"
+                        % (i, dump(t.slice)), where(f, st), "%s[%s*%s:(%s+1)*%s]" % (out, i, no, i, no), dump(t))
+            good = False
+        if dump(st.value) != a:
+            rep.violate("R2-tiles", construct, "a tile is filled with %s, not with the whole option set" % dump(st.value), where(f, st), a, dump(st.value))
+            good = False
     # remainder
     rem = [n for n in walk_no_nested(f.node) if isinstance(n, ast.Assign) and isinstance(n.targets[0], ast.Subscript) and dump(n.targets[0].value) == out
            and n is not st]
